@@ -42,6 +42,20 @@ def _check_main(ctx):
                 ok = False
             if not ok:
                 ctx.violation("to-self:" + text, text, str(want), repr((k, v)), "execute(%r)" % text)
+    # a leading sign binds tighter than unit attachment: `-x U` is (-x) U — it matters for the affine units
+    for u in phys:
+        if Fraction(u["offset"][0], u["offset"][1]) == 0 and rng.random() < 0.8:
+            continue
+        f, o = Fraction(u["multiple"][0], u["multiple"][1]), Fraction(u["offset"][0], u["offset"][1])
+        for x in (40, 273, 5, 100):
+            for text, want in (("-%d %s" % (x, u["singular"]), f * -x + o), ("-%d %s to %s" % (x, u["singular"], u["singular"]), Fraction(-x)),
+                               ("+%d %s" % (x, u["singular"]), f * x + o), ("0 %s - -%d %s" % (u["singular"], x, u["singular"]), (o) - (f * -x + o))):
+                k, v = R.value(text)
+                ctx.count(text, bucket="signed-literal")
+                got = Fraction(v.mag) if (k == "ok" and isinstance(v, T.Quantity)) else (Fraction(v) if k == "ok" else None)
+                exact = u["multiple"][2] != "float"
+                if got is None or (got != want if exact else abs(got - want) > Fraction(1, 10**9) * max(1, abs(want))):
+                    ctx.violation("signed-literal:" + text, text, str(want), repr((k, v)), "execute(%r)" % text)
     pairs = []
     for d, us in g.by_dim.items():
         for a in us:
